@@ -1384,3 +1384,111 @@ func c10Witnesses() []*c10Case {
 			script: []string{"t", "t", "t", "t", "t", "t", "t", "t", "t", "t", "t", "t", "s200", "c"}},
 	}
 }
+
+// ---------------------------------------------------------------------------- backoff lane
+
+// TestVerif_C10_backoff: the real backoffInterval (in-package) on (min, max, attempt) triples
+// around every boundary; the observed interval is checked against the model's bounds.
+func TestVerif_C10_backoff(t *testing.T) {
+	s := verifh.New(t, "C10", "backoff",
+		"grid of (min,max,attempt): min in {0,1,2,3,7,100,1e6,1e8,1e9,2^40,2^52,2^53-1,-1,-5} and random, max in {0..5, min-1, min, min+1, 2min-1, 2min, 2min+1, 1e9, 2e9, 2^53-1, -1} and random, attempt in {0,1,2,3,5,10,30,31,52,53,62,63,64,100,1023,1024,5000} and random; each triple drawn 3 times (different jitter); the real function's result or panic is judged by the model (membership in [half, 2*half)) and by the stated bounds; non-trivial = no panic and half > 1")
+	r := s.Rand()
+	mins := []int64{0, 1, 2, 3, 7, 100, 1e6, 1e8, 1e9, 1 << 40, 1 << 52, 1<<53 - 1, -1, -5}
+	atts := []int{0, 1, 2, 3, 5, 10, 30, 31, 52, 53, 62, 63, 64, 100, 1023, 1024, 5000}
+	type rec struct {
+		mn, mx  int64
+		att     int
+		obs     string
+		impl    string
+		ok      bool
+		nontriv bool
+	}
+	var recs []rec
+	run := func(mn, mx int64, att int) {
+		var d time.Duration
+		_, panicked := verifh.Safely(func() { d = backoffInterval(time.Duration(mn), time.Duration(mx))(nil, att) })
+		rc := rec{mn: mn, mx: mx, att: att, ok: true}
+		if panicked {
+			rc.obs, rc.impl = "p", "panic"
+			s.Count("panic")
+		} else {
+			rc.obs, rc.impl = strconv.FormatInt(int64(d), 10), "ok"
+			s.Count("ok")
+		}
+		// the property's own reading of "within its configured bounds"
+		if mn > 0 && mx >= 2 && mn <= mx && att >= 1 {
+			s.Count("in-domain")
+			if panicked || int64(d) > mx || int64(d) < 0 || (2*mn <= mx && int64(d) < mn) {
+				rc.ok = false
+			}
+			rc.nontriv = !panicked && int64(d) > 1
+		}
+		recs = append(recs, rc)
+	}
+	for _, mn := range mins {
+		maxs := []int64{0, 1, 2, 3, 4, 5, mn - 1, mn, mn + 1, 2*mn - 1, 2 * mn, 2*mn + 1, 1e9, 2e9, 1<<53 - 1, -1}
+		for _, mx := range maxs {
+			if mx >= 1<<53 || mn >= 1<<53 {
+				continue
+			}
+			for _, a := range atts {
+				for k := 0; k < 3; k++ {
+					run(mn, mx, a)
+				}
+			}
+		}
+	}
+	n := verifh.N(4000, 300000)
+	for i := 0; i < n; i++ {
+		mn := int64(r.Intn(1 << uint(1+r.Intn(40))))
+		var mx int64
+		switch r.Intn(4) {
+		case 0:
+			mx = mn + int64(r.Intn(5)) - 2
+		case 1:
+			mx = 2*mn + int64(r.Intn(5)) - 2
+		default:
+			mx = mn + int64(r.Intn(1<<uint(1+r.Intn(42))))
+		}
+		run(mn, mx, r.Intn(70))
+	}
+	// classification: repaired model (guard) first, then the code as found
+	line := func(g string, rc rec) string {
+		return fmt.Sprintf("c10backoff %s %d %d %d %s", g, rc.mn, rc.mx, rc.att, rc.obs)
+	}
+	lines := make([]string, len(recs))
+	for i, rc := range recs {
+		lines[i] = line("1", rc)
+	}
+	class := make([]string, len(recs))
+	ans, err := verifh.RunModel(lines)
+	if err == nil {
+		var idx []int
+		var pl []string
+		for i, rc := range recs {
+			if ans[i] != rc.impl {
+				idx = append(idx, i)
+				pl = append(pl, line("0", rc))
+			}
+		}
+		if len(pl) > 0 {
+			if pa, err := verifh.RunModel(pl); err == nil {
+				for j, i := range idx {
+					if pa[j] == recs[i].impl {
+						class[i] = "c10-backoff-panic"
+						s.Count("as-found:c10-backoff-panic")
+					}
+				}
+			}
+		}
+	}
+	for pass := 0; pass < 2; pass++ {
+		for i, rc := range recs {
+			unexplained := class[i] == "" && (!rc.ok || (ans != nil && ans[i] != rc.impl))
+			if unexplained == (pass == 0) {
+				s.Case(lines[i], rc.impl, rc.ok, class[i], rc.nontriv, fmt.Sprintf("backoffInterval(%d,%d)(nil,%d) -> %s", rc.mn, rc.mx, rc.att, rc.obs))
+			}
+		}
+	}
+	s.Finish()
+}
